@@ -177,9 +177,10 @@ def interpolant(chk):
             hy = list(o.pc)
             asm = list(o.assumptions)
             r = v["rec"]
-            okh = len(r["harm"]) == 1 and len(r["sph"]) == 1 and r["sph"][0] and r["sph"][0][-1] is v["pts"]
+            okh = len(r["harm"]) == 1 and len(r["sph"]) == 1 and bool(r["sph"][0])
             goals = [z3.BoolVal(bool(okh))]
             if okh:
+                goals.append(framework.same_array(r["sph"][0][-1], v["pts"], "qp"))       # the points handed to the conversion (by value)
                 goals.append(T.zi(r["harm"][0][0]) == LH)
                 th, ph = r["harm"][0][1], r["harm"][0][2]
                 goals.append(z3.And(T.zr(th.fn(j0)) == SPH(j0, 1), T.zr(ph.fn(j0)) == SPH(j0, 2)))
